@@ -192,6 +192,7 @@ struct Driver {
                 if (op == "rbf") {
                     std::string name;
                     Built b = build(w, i, name);
+                    if (names.count(b.tx->GetHash())) return "SETUPFAIL " + std::to_string(opn) + " candidate-identical-to-a-history-transaction";
                     remember(name, b.tx);
                     LOCK(cs_main);
                     auto res = AcceptToMemoryPool(setup.m_node.chainman->ActiveChainstate(), b.tx, GetTime(), false, false);
@@ -201,6 +202,7 @@ struct Driver {
                 } else {
                     std::string n1, n2;
                     Built p = build(w, i, n1);
+                    if (names.count(p.tx->GetHash())) return "SETUPFAIL " + std::to_string(opn) + " candidate-identical-to-a-history-transaction";
                     remember(n1, p.tx);
                     if (w.at(i++) != ",") return "BADCASE";
                     Built c = build(w, i, n2);
